@@ -107,6 +107,17 @@ CHECKS["C08"] = ("exploration",
     "Colliding short forms (N h, N night, N m) are asserted on the candidate stream only.",
     "DESIGN.md 4 (C08)")
 
+CHECKS["C09"] = ("exploration",
+    "Metamorphic relation: expressions of the bundled corpora/dataset/grammar embedded among Hypothesis-generated inert words (inertness decided on the whole text with the library's own patterns) must keep value and (shifted) span; span tightness predicate",
+    "Generated embeddings (prefix/suffix of 0-3 inert words, latent on/off, corpus or edge reference times) are compared with the parse of the bare expression: equal value, span shifted by the prefix length, no neighbouring word or blank inside the span.",
+    "Expressions not recognised alone are skipped; inert-word redraws are counted in the evidence.",
+    "DESIGN.md 4 (C09)")
+CHECKS["C10"] = ("exploration",
+    "Hypothesis-assembled texts (inert words, ordinary words, valid hashtags incl. duplicates, one time expression, library separator runs) with word-list validity predicates and metamorphic variants (hashtags removed; expression removed = no-match path)",
+    "Labels/subject are checked as word lists against what the generator put into the text (labels exactly the hashtags in order; inert words kept in order with multiplicity; subsequence of the input; words inside matches the resolution was built from dropped) and under the two metamorphic variants.",
+    "Words matching a pattern but unused are unconstrained (the property leaves them open).",
+    "DESIGN.md 4 (C10)")
+
 NOT_YET = "check not built yet in this round (see DESIGN.md section 4 for the planned generated-input check)"
 
 
